@@ -577,3 +577,49 @@ Fixpoint census (v : val) : list cls :=
   | VObj c parts => c :: flat_map census parts
   | _ => []
   end.
+
+(* ---------------------------------------------------------------- the converter registries as state *)
+(* register_x / unregister_x are classmethods: they can be called on SerializerBase (= Pyro5.api) or on a concrete
+   serializer class.  A history is a list of such calls; decoding with serializer s then consults the registry that
+   s's class resolves to.  [inplace] is generated from the source: true = the methods change the one class-level
+   dict in place; false = they rebind the attribute through cls, which gives a subclass a shadowing copy. *)
+Inductive regkind := KD2C | KC2D.
+Inductive entrypoint := EpBase | EpSer (s : N).
+Record regop := { op_add : bool; op_ep : entrypoint; op_kind : regkind; op_tag : text }.
+Record regstate := { rs_base : list text; rs_shadow : list (N * list text) }.
+
+Definition kind_eqb (a b : regkind) : bool := match a, b with KD2C, KD2C | KC2D, KC2D => true | _, _ => false end.
+Definition add_tag (t : text) (l : list text) : list text := if mem t l then l else t :: l.
+Definition del_tag (t : text) (l : list text) : list text := filter (fun x => negb (text_eqb x t)) l.
+Definition upd (add : bool) (t : text) (l : list text) : list text := if add then add_tag t l else del_tag t l.
+Fixpoint shadow_of (s : N) (sh : list (N * list text)) : option (list text) :=
+  match sh with [] => None | (s', l) :: r => if s =? s' then Some l else shadow_of s r end.
+Definition set_shadow (s : N) (l : list text) (sh : list (N * list text)) : list (N * list text) :=
+  (s, l) :: filter (fun p => negb (fst p =? s)) sh.
+(* the registry serializer class s sees *)
+Definition view (st : regstate) (s : N) : list text :=
+  match shadow_of s (rs_shadow st) with Some l => l | None => rs_base st end.
+
+Definition reg_step (inplace : bool) (st : regstate) (op : regop) : regstate :=
+  match op_ep op with
+  | EpBase => {| rs_base := upd (op_add op) (op_tag op) (rs_base st); rs_shadow := rs_shadow st |}
+  | EpSer s =>
+    match shadow_of s (rs_shadow st) with
+    | Some l => {| rs_base := rs_base st; rs_shadow := set_shadow s (upd (op_add op) (op_tag op) l) (rs_shadow st) |}
+    | None =>
+      if inplace then {| rs_base := upd (op_add op) (op_tag op) (rs_base st); rs_shadow := rs_shadow st |}
+      else if op_add op || mem (op_tag op) (rs_base st)     (* unregister of an absent tag rebinds nothing *)
+           then {| rs_base := rs_base st; rs_shadow := set_shadow s (upd (op_add op) (op_tag op) (rs_base st)) (rs_shadow st) |}
+           else st
+    end
+  end.
+
+Definition of_kind (k : regkind) (h : list regop) : list regop := filter (fun op => kind_eqb (op_kind op) k) h.
+Definition run_hist (inplace : bool) (k : regkind) (h : list regop) : regstate :=
+  fold_left (reg_step inplace) (of_kind k h) {| rs_base := []; rs_shadow := [] |}.
+Definition effective (inplace : bool) (k : regkind) (h : list regop) (s : N) : list text := view (run_hist inplace k h) s.
+
+(* the specification: a tag is registered iff the last call that named it (through whichever entry point) was a register *)
+Definition last_wins (t : text) (b : bool) (op : regop) : bool := if text_eqb t (op_tag op) then op_add op else b.
+Definition currently_registered (k : regkind) (h : list regop) (t : text) : bool :=
+  fold_left (last_wins t) (of_kind k h) false.
